@@ -4,7 +4,7 @@ P="$(readlink -f "$1")"; shift
 cd /repo || exit 2
 if [ -n "$(git status --porcelain --untracked-files=no)" ]; then echo "with_patch: /repo has uncommitted changes" >&2; exit 2; fi
 # ALWAYS revert, and rebuild the hooked binary from the clean tree so that no later stand-alone run uses a patched build
-trap 'git -C /repo checkout -- . ; git -C /repo clean -fdq -- source 2>/dev/null; cmake --build /verif/.work/build-hooks -j16 --target sympler >/dev/null 2>&1' EXIT
+trap 'git -C /repo checkout -- . ; git -C /repo clean -fdq -- source 2>/dev/null; cmake --build /verif/.work/build-hooks -j16 --target sympler >/dev/null 2>&1; [ -d /verif/.work/build-omp ] && cmake --build /verif/.work/build-omp -j16 --target sympler >/dev/null 2>&1' EXIT
 git apply "$P" || { echo "with_patch: patch does not apply" >&2; exit 2; }
 cd /verif
 "$@"
